@@ -576,6 +576,43 @@ func runC02(c *core.Ctx) {
 		c.Check(probes, rel+"."+name+"#int-arm-uint", p.Pos(fn.Pos()), "probes UintNode", name+" relies on AsInt without probing UintNode")
 	}
 
+	c.Rule("C02.uintsame", "the encoder asks a UintNode for AsUint and every other reader asks AsInt - both must name the same integer: for every UintNode implementation of the module, each user-supplied conversion function (a function-typed struct field) that AsInt can call is also called by AsUint", 3)
+	if uIface := p.Iface("datamodel", "UintNode"); uIface != nil {
+		userConversions := func(fn *ssa.Function) map[core.FieldID]string {
+			out := map[core.FieldID]string{}
+			for g := range localClosure(p, []*ssa.Function{fn}) {
+				if gp := core.FuncPkg(g); gp == nil || gp != core.FuncPkg(fn) {
+					continue
+				}
+				for _, ci := range core.Calls(g) {
+					cc := ci.Common()
+					if cc.IsInvoke() || cc.StaticCallee() != nil {
+						continue
+					}
+					if fid, fv, ok := core.FieldOfLoad(core.Strip(cc.Value)); ok {
+						out[fid] = fv.Name()
+					}
+				}
+			}
+			return out
+		}
+		for _, im := range p.Implementers(uIface, libraryPkg) {
+			fi, fu := p.Method(im.Type(), "AsInt"), p.Method(im.Type(), "AsUint")
+			if fi == nil || fu == nil {
+				continue
+			}
+			name := core.RelPkg(im.Named.Obj().Pkg().Path()) + "." + im.Named.Obj().Name()
+			ci, cu := userConversions(fi), userConversions(fu)
+			missing := ""
+			for fid, fname := range ci {
+				if _, ok := cu[fid]; !ok {
+					missing = fname
+				}
+			}
+			c.Check(missing == "", name+"#AsUint-same-conversions", p.Pos(fu.Pos()), fmt.Sprintf("AsUint applies the %d user conversion(s) AsInt applies", len(ci)), "AsInt passes the stored Go value through the user-supplied conversion "+missing+" but AsUint returns it as it is: dag-cbor (which asks AsUint first) encodes a different integer than the one every other reader of the node sees, and decoding those bytes applies the conversion a second time")
+		}
+	}
+
 	c.Rule("C02.link", "in the encoder's link arm: the emission (sink.Step of the tagged token) is dominated by the true edge of Cid.Defined(); Token.Tag is stored from the package's link-tag constant; Token.Bytes is append([]byte{0}, cid bytes...) (exactly one zero prefix byte); and after Token.Tagged was set, every path to a return passes a store clearing it (the token is shared by the whole encode)", 4)
 	if fn := p.Func(rel, "", "Marshal"); fn != nil { // the entry point with its workers expanded
 		key := core.FuncKey(fn)
